@@ -142,7 +142,9 @@ class CGraph:
 
         for nf,f in enumerate(self.dependentFunctionList):
             try:
-                f.xbar[...] = xbar_list[nf]
+                # accumulate: the adjoints have just been zeroed, and dependents that are views of
+                # one value (z[0:2] and z[1:3]) share adjoint memory, as does a node listed twice
+                f.xbar += xbar_list[nf]
             except Exception as e:
                 err_str  = 'tried to initialize the bar value of  cg.dependentFunctionList[%d], but some error occured:\n'%nf
                 err_str += 'the assignment:  f.xbar[...] = xbar_list[%d]\n'%(nf)
